@@ -10,6 +10,11 @@ import (
 
 // C08 — Router routes per handler: right function, right topic, unmodified outputs.
 
+type c8Parked struct {
+	m  *message.Message
+	by *c8Handler
+}
+
 type c8Handler struct {
 	name     string
 	subTopic string
@@ -20,6 +25,9 @@ type c8Handler struct {
 	addOut   bool // middleware that adds an output (only interesting on no-publisher handlers)
 	outN     map[string]int  // uuid -> number of outputs
 	passSelf map[string]bool // uuid -> return the consumed object itself as first output
+	// parkConsumed: the consumed object is kept in a shared list; reuseParked: the second output is an object parked by another handler
+	parkConsumed map[string]bool
+	reuseParked  map[string]bool
 	invoked  map[*Delivery]int
 	returned map[*Delivery][]*message.Message
 	snaps    map[*Delivery][]*message.Message
@@ -54,8 +62,9 @@ func c08Body(r *Run) {
 	rig := newRouterRig(r, 30*time.Second)
 	var hs []*c8Handler
 	owner := map[*message.Message]*c8Handler{} // produced message -> handler that returned it
+	var parked []c8Parked
 	for i := 0; i < nH; i++ {
-		h := &c8Handler{name: fmt.Sprintf("handler-%d", i), outN: map[string]int{}, passSelf: map[string]bool{},
+		h := &c8Handler{name: fmt.Sprintf("handler-%d", i), outN: map[string]int{}, passSelf: map[string]bool{}, parkConsumed: map[string]bool{}, reuseParked: map[string]bool{},
 			invoked: map[*Delivery]int{}, returned: map[*Delivery][]*message.Message{}, snaps: map[*Delivery][]*message.Message{}}
 		h.sub = subs[t.Int(nSubs)]
 		h.pub = pubs[t.Int(nPubs)]
@@ -71,6 +80,8 @@ func c08Body(r *Run) {
 		for _, sm := range h.sub.Script[h.subTopic] {
 			h.outN[sm.UUID] = t.Int(4)
 			h.passSelf[sm.UUID] = t.Chance(1, 4)
+			h.parkConsumed[sm.UUID] = t.Chance(1, 3)
+			h.reuseParked[sm.UUID] = t.Chance(1, 3)
 		}
 		hs = append(hs, h)
 		r.Describe("%s: %s/%s -> %s/%s noPublisher=%v addOutputMiddleware=%v outputs=%v passSelf=%v", h.name, h.sub.Name, h.subTopic, h.pub.Name, h.pubTopic, h.noPub, h.addOut, h.outN, h.passSelf)
@@ -110,11 +121,28 @@ func c08Body(r *Run) {
 						outs = append(outs, msg)
 						continue
 					}
+					if k == 1 && h.reuseParked[msg.UUID] {
+						// a message object that went through ANOTHER handler earlier (collected there, flushed here)
+						for pi, pm := range parked {
+							if pm.by != h {
+								outs = append(outs, pm.m)
+								parked = append(parked[:pi], parked[pi+1:]...)
+								r.Probe("output-object-came-from-another-handler")
+								break
+							}
+						}
+						if len(outs) > k {
+							continue
+						}
+					}
 					o := message.NewMessage(fmt.Sprintf("%s>%s>%d", msg.UUID, h.name, k), []byte(fmt.Sprintf("out-%s-%d", h.name, k)))
 					o.Metadata.Set("from", h.name)
 					o.Metadata.Set("n", fmt.Sprint(k))
 					outs = append(outs, o)
 				}
+			}
+			if h.parkConsumed[msg.UUID] && !h.passSelf[msg.UUID] {
+				parked = append(parked, c8Parked{msg, h})
 			}
 			h.returned[d] = outs
 			var sn []*message.Message
